@@ -248,6 +248,34 @@ def r6(ctx):
            "the parser writes into constants.dialect itself: %s" % sorted(k for k in before if shared.get(k) != before[k]))
 
 
+def r_files(ctx):
+    """The dialect of a file, evaluated end to end (DataIterator -> peek -> vote -> create_db -> FeatureDB): it is the one
+    the file is written in, it decides the import route, and it follows the file's content -- not its name -- when the same
+    path is written again within one process."""
+    from . import scen
+    f = require_func(ctx, "helpers._choose_dialect")
+    gff = "\n".join(["chr1\tsrc\tgene\t100\t900\t.\t+\t.\tID=g1;Name=G1", "chr1\tsrc\tmRNA\t100\t900\t.\t+\t.\tID=t1;Parent=g1",
+                      "chr1\tsrc\texon\t100\t200\t.\t+\t.\tID=e1;Parent=t1"]) + "\n"
+    gtf = "\n".join(['chr1\tsrc\texon\t100\t200\t.\t+\t.\tgene_id "g1"; transcript_id "t1";', 'chr1\tsrc\texon\t300\t400\t.\t+\t.\tgene_id "g1"; transcript_id "t1";']) + "\n"
+    spaced = gff.replace(";", " ; ")
+    it = scen.text_interp(ctx)
+    for label, text, want in (("GFF3", gff, {"fmt": "gff3", "field separator": ";", "keyval separator": "=", "quoted GFF2 values": False, "trailing semicolon": False}),
+                              ("the same path rewritten as GTF", gtf, {"fmt": "gtf", "field separator": "; ", "keyval separator": " ", "quoted GFF2 values": True, "trailing semicolon": True}),
+                              ("the same path rewritten with ' ; ' separators", spaced, {"fmt": "gff3", "field separator": " ; ", "keyval separator": "="})):
+        it, db, t = scen.create_db_from_text(ctx, text, path="annotation.txt", it=it)
+        if not scen.returned(ctx, t, "create_db (%s)" % label, func=f, rule="R4"):
+            continue
+        fdb = t.result[1]
+        d = fdb.attrs.get("dialect") if hasattr(fdb, "attrs") else None
+        got = {k: d.get(k) for k in want} if isinstance(d, dict) else d
+        ctx.ob("R4", got == want, "the database's dialect is the one the file is written in (%s)" % label, func=f,
+               sig="dialect of %s as written" % label if got == want else "%s: FeatureDB.dialect %s, the file is written with %s" % (label, got, want))
+        derived = sorted(r[0] for r in db.rows("features", ["id", "source"]) if r[1] == "gffutils_derived")
+        route_ok = (derived == ["g1", "t1"]) if want["fmt"] == "gtf" else (derived == [])
+        ctx.ob("R4", route_ok, "the format decides the import semantics: GTF infers gene and transcript features, GFF3 does not (%s)" % label, func=f,
+               sig="%s imported with %s semantics" % (label, want["fmt"]) if route_ok else "%s: derived features %s" % (label, derived), nontrivial=False)
+
+
 def r_window(ctx):
     """The inspected window: every peek implementation, evaluated on a source longer than the window, returns the same
     number of items for the same `checklines` (sibling agreement: the vote must not depend on how the data is supplied)."""
@@ -269,7 +297,8 @@ def r_window(ctx):
             for label, mk in (("one-shot stream", lambda xs: StreamVal(xs, "data")), ("list", lambda xs: list(xs))):
                 xs = [Opaque("x%d" % i, "Feature") for i in range(n + 4)]
                 so = Opaque("self", c.name)      # the run-time class: template methods dispatch through it
-                so.attrs["data"] = mk(xs)
+                # file-based iterators read a path (their pass over the file is the summarised _custom_iter); the others hold the items
+                so.attrs["data"] = "annotation.gff" if ctx.proj.method(c, "open_function") is not None else mk(xs)
                 fresh = lambda i, pos, kw, node, xs=xs: StreamVal(xs, "file pass")
                 traces = _run(ctx, m, {n_param: n}, self_obj=so, summaries={"iterators._FileIterator._custom_iter": fresh, "iterators._BaseIterator._custom_iter": fresh})
                 for t in traces:
@@ -292,6 +321,7 @@ def check(ctx):
     r1(ctx)
     r2_r3(ctx)
     r_window(ctx)
+    r_files(ctx)
     r5(ctx)
     r6(ctx)
     from .c03 import r5_format_routing
